@@ -3,8 +3,10 @@
 from __future__ import annotations
 from dataclasses import dataclass
 from contextlib import contextmanager
+import functools
 from importlib import import_module
-from typing import Any, Callable, Final, Iterator, Union, Tuple
+import inspect
+from typing import Any, Callable, Final, Iterator, Mapping, Sequence, Union, Tuple
 
 _MISSING: Final[object] = object()
 
@@ -37,6 +39,199 @@ class MonkeyPatchSpec:
 PatchSpec = Union[AssignSpec, MonkeyPatchSpec]
 
 
+# ------------------------------------------------------------------------------
+# Call-signature adapter
+# ------------------------------------------------------------------------------
+# A tracing-time substitute usually declares fewer / differently named / differently
+# ordered parameters than the library callable it replaces.  A call that is valid
+# for the library callable must not fail merely for that reason.  The adapter
+#   * leaves every call the substitute binds itself exactly as it is,
+#   * re-routes any other call that is valid for the original BY NAME to the
+#     parameters the substitute declares (renamed positional parameters are paired
+#     by position), drops an argument the substitute does not declare only when
+#     its value is the original's default, and otherwise
+#   * calls the original (it traces to primitives that have their own plugins).
+# No argument is silently ignored.
+
+_POS_KINDS: Final = (
+    inspect.Parameter.POSITIONAL_ONLY,
+    inspect.Parameter.POSITIONAL_OR_KEYWORD,
+)
+_VAR_POS: Final = inspect.Parameter.VAR_POSITIONAL
+_VAR_KW: Final = inspect.Parameter.VAR_KEYWORD
+_KW_ONLY: Final = inspect.Parameter.KEYWORD_ONLY
+_POS_ONLY: Final = inspect.Parameter.POSITIONAL_ONLY
+
+PLAN_DIRECT: Final = "direct"  # the substitute binds the call itself
+PLAN_FOREIGN: Final = "foreign"  # not a call form of the original either
+PLAN_ROUTED: Final = "routed"  # re-routed by name; payload (args, kwargs, dropped)
+PLAN_ORIGINAL: Final = "original"  # an argument cannot be delivered: call the original
+
+
+def _bind(
+    sig: inspect.Signature, args: Sequence[Any], kwargs: Mapping[str, Any]
+) -> inspect.BoundArguments | None:
+    """Bind the call the way the interpreter binds it to a function with signature `sig`."""
+    params = sig.parameters
+    var_kw = next((p.name for p in params.values() if p.kind is _VAR_KW), None)
+    if var_kw is not None:
+        # PEP 570: a keyword that names a positional-only parameter lands in **kwargs
+        # (inspect.Signature.bind rejects it); bind such keywords under a neutral name.
+        kwargs = {
+            (f"{k}\x00" if k in params and params[k].kind is _POS_ONLY else k): v
+            for k, v in kwargs.items()
+        }
+    try:
+        bound = sig.bind(*args, **kwargs)
+    except TypeError:
+        return None
+    if var_kw is not None and var_kw in bound.arguments:
+        bound.arguments[var_kw] = {
+            k.rstrip("\x00"): v for k, v in bound.arguments[var_kw].items()
+        }
+    return bound
+
+
+def _binds(sig: inspect.Signature, args: Sequence[Any], kwargs: Mapping[str, Any]) -> bool:
+    return _bind(sig, args, kwargs) is not None
+
+
+def _is_default(value: Any, default: Any) -> bool:
+    if default is inspect.Parameter.empty:
+        return False
+    if value is default:
+        return True
+    simple = (bool, int, float, complex, str, bytes, type(None), tuple)
+    if type(value) in simple and type(default) in simple:
+        try:
+            return bool(value == default) and type(value) is type(default)
+        except Exception:
+            return False
+    return False
+
+
+def plan_call(
+    sig_orig: inspect.Signature,
+    sig_new: inspect.Signature,
+    args: Sequence[Any],
+    kwargs: Mapping[str, Any],
+) -> tuple[str, Any]:
+    """Decide how a call reaches the substitute (pure; no call is made)."""
+    if _binds(sig_new, args, kwargs):
+        return PLAN_DIRECT, None
+    bound = _bind(sig_orig, args, kwargs)
+    if bound is None:
+        return PLAN_FOREIGN, None
+
+    o_params = list(sig_orig.parameters.values())
+    n_params = list(sig_new.parameters.values())
+    o_pos = [p for p in o_params if p.kind in _POS_KINDS]
+    n_pos = [p for p in n_params if p.kind in _POS_KINDS]
+    o_names = {p.name for p in o_params if p.kind not in (_VAR_POS, _VAR_KW)}
+    n_named = {p.name: p for p in n_params if p.kind not in (_VAR_POS, _VAR_KW)}
+    n_has_varkw = any(p.kind is _VAR_KW for p in n_params)
+    n_has_varpos = any(p.kind is _VAR_POS for p in n_params)
+    # a positional parameter that only changed its name keeps its position
+    renamed: dict[str, str] = {}
+    for i, po in enumerate(o_pos):
+        if i < len(n_pos) and po.name not in n_named and n_pos[i].name not in o_names:
+            renamed[po.name] = n_pos[i].name
+
+    values: dict[str, Any] = {}  # substitute parameter name -> value
+    extra_kw: dict[str, Any] = {}  # goes to the substitute's **kwargs
+    extra_pos: tuple[Any, ...] = ()
+    dropped: list[str] = []
+    for name, value in bound.arguments.items():
+        po = sig_orig.parameters[name]
+        if po.kind is _VAR_POS:
+            if value:
+                if not n_has_varpos:
+                    return PLAN_ORIGINAL, name
+                extra_pos = tuple(value)
+            continue
+        if po.kind is _VAR_KW:
+            for k, v in value.items():
+                if k in values or k in extra_kw:
+                    return PLAN_ORIGINAL, k  # two arguments for one parameter
+                if k in n_named and n_named[k].kind is not _POS_ONLY:
+                    values[k] = v
+                elif n_has_varkw:
+                    extra_kw[k] = v
+                else:
+                    return PLAN_ORIGINAL, k
+            continue
+        target = name if name in n_named else renamed.get(name)
+        if target is not None:
+            if target in values:
+                return PLAN_ORIGINAL, name  # two arguments for one parameter
+            values[target] = value
+        elif n_has_varkw and po.kind is not _POS_ONLY:
+            if name in extra_kw:
+                return PLAN_ORIGINAL, name
+            extra_kw[name] = value
+        elif _is_default(value, po.default):
+            dropped.append(name)
+        else:
+            return PLAN_ORIGINAL, name
+
+    new_args: list[Any] = []
+    new_kwargs: dict[str, Any] = {}
+    gap = False
+    for pn in n_params:
+        if pn.kind in _POS_KINDS:
+            if pn.name in values:
+                if not gap:
+                    new_args.append(values[pn.name])
+                elif pn.kind is _POS_ONLY:
+                    return PLAN_ORIGINAL, pn.name
+                else:
+                    new_kwargs[pn.name] = values[pn.name]
+            else:
+                gap = True
+        elif pn.kind is _KW_ONLY and pn.name in values:
+            new_kwargs[pn.name] = values[pn.name]
+    if extra_pos:
+        if gap:
+            return PLAN_ORIGINAL, "*args"
+        new_args.extend(extra_pos)
+    if any(k in values for k in extra_kw):
+        return PLAN_ORIGINAL, None
+    new_kwargs.update(extra_kw)
+    # every argument is delivered exactly once or dropped as a default
+    if len(new_args) + len(new_kwargs) + len(dropped) != len(args) + len(kwargs):
+        return PLAN_ORIGINAL, None
+    if not _binds(sig_new, new_args, new_kwargs):
+        return PLAN_ORIGINAL, None
+    return PLAN_ROUTED, (tuple(new_args), new_kwargs, tuple(dropped))
+
+
+def adapt_call_signature(orig: Any, new: Any) -> Any:
+    """Give the substitute `new` the call signature of the callable `orig` it replaces."""
+    if not callable(orig) or not callable(new) or inspect.isclass(new) or new is orig:
+        return new
+    try:
+        sig_orig = inspect.signature(orig)
+        sig_new = inspect.signature(new, follow_wrapped=False)
+    except (TypeError, ValueError):
+        return new
+
+    def adapted(*args: Any, **kwargs: Any) -> Any:
+        plan, payload = plan_call(sig_orig, sig_new, args, kwargs)
+        if plan == PLAN_ROUTED:
+            new_args, new_kwargs, _dropped = payload
+            return new(*new_args, **new_kwargs)
+        if plan == PLAN_ORIGINAL:
+            return orig(*args, **kwargs)
+        return new(*args, **kwargs)  # direct, or foreign: the substitute's own error
+
+    try:
+        functools.update_wrapper(adapted, orig)
+    except Exception:
+        pass
+    adapted.__j2o_substitute__ = new  # type: ignore[attr-defined]
+    return adapted
+
+
 @contextmanager
 def apply_patches(specs: list[PatchSpec]) -> Iterator[None]:
     applied: list[Tuple[Any, str, Any, bool]] = []
@@ -55,6 +250,8 @@ def apply_patches(specs: list[PatchSpec]) -> Iterator[None]:
                 setattr(tgt, s.attr, s.value)
             else:  # MonkeyPatchSpec
                 new_val = s.make_value(None if orig is _MISSING else orig)
+                if orig is not _MISSING:
+                    new_val = adapt_call_signature(orig, new_val)
                 setattr(tgt, s.attr, new_val)
             applied.append((tgt, s.attr, orig, owned))
         yield
